@@ -69,14 +69,14 @@ Proof.
 Qed.
 
 Lemma EL_dispatch e (lsE : locals elocal) t op rest pc0 l' :
-  EWf lsE -> ELive e lsE -> epcs (lsE t) = None -> eprog (lsE t) = op :: rest ->
-  pc0 = (match op with EWait => EW0 | ESet => ES0 | EReset => ER0 end) -> epcs l' = Some pc0 ->
+  EWf lsE -> ELive e lsE -> epcs (lsE t) = None -> eprog (lsE t) = op :: rest -> op <> EOcc ->
+  pc0 = (match op with EWait => EW0 | ESet => ES0 | EReset => ER0 | EOcc => EDone end) -> epcs l' = Some pc0 ->
   ELive e (upd lsE t l').
 Proof.
-  intros W L Hpc Hprog Hp Hl.
+  intros W L Hpc Hprog Hocc Hp Hl.
   pose proof (ELive_step ENorm t {| est := e; elog := [] |} lsE W L) as H.
   unfold e_tstep in H. cbn [est] in H. rewrite Hpc, Hprog in H.
-  destruct op; cbn [fst snd est] in H; (eapply ELive_ext; [|exact H]); intros t0;
+  destruct op; [| | |congruence]; cbn [fst snd est] in H; (eapply ELive_ext; [|exact H]); intros t0;
     (destruct (Nat.eq_dec t0 t) as [->|Hne]; [rewrite !upd_same|rewrite !upd_other by exact Hne; reflexivity]);
     rewrite Hl, Hp; reflexivity.
 Qed.
@@ -132,11 +132,11 @@ Proof.
   destruct (Nat.eq_dec t0 t) as [->|Hne]; [rewrite upd_same; cbn; congruence|rewrite upd_other by exact Hne; reflexivity].
 Qed.
 
-Lemma EL_enter e ls t op l' : OWf ls -> ELive e (proj ls) -> epcof (opc (ls t)) = None ->
-  epcof (opc l') = Some (match op with EWait => EW0 | ESet => ES0 | EReset => ER0 end) ->
+Lemma EL_enter e ls t op l' : OWf ls -> ELive e (proj ls) -> epcof (opc (ls t)) = None -> op <> EOcc ->
+  epcof (opc l') = Some (match op with EWait => EW0 | ESet => ES0 | EReset => ER0 | EOcc => EDone end) ->
   ELive e (proj (upd ls t l')).
 Proof.
-  intros W L H1 H2.
+  intros W L H1 Hocc H2.
   set (lsE := upd (proj ls) t {| eprog := [op]; epcs := None |}).
   assert (LE : ELive e lsE).
   { eapply ELive_ext; [|exact L]. intros t0. unfold lsE.
@@ -146,8 +146,8 @@ Proof.
     - rewrite upd_same in H. discriminate.
     - rewrite upd_other in H |- * by exact Hne. apply (EWf_proj ls W t0 pc H). }
   assert (H : ELive e (upd lsE t (projl l'))).
-  { apply (EL_dispatch e lsE t op [] (match op with EWait => EW0 | ESet => ES0 | EReset => ER0 end) (projl l') WE LE);
-      try reflexivity; try (unfold lsE; rewrite upd_same; reflexivity). exact H2. }
+  { apply (EL_dispatch e lsE t op [] (match op with EWait => EW0 | ESet => ES0 | EReset => ER0 | EOcc => EDone end) (projl l') WE LE);
+      try reflexivity; try (unfold lsE; rewrite upd_same; reflexivity); [exact Hocc|exact H2]. }
   eapply ELive_ext; [|exact H]. intros t0. unfold lsE, proj.
   destruct (Nat.eq_dec t0 t) as [->|Hne]; [rewrite !upd_same; reflexivity|rewrite !upd_other by exact Hne; reflexivity].
 Qed.
@@ -247,7 +247,7 @@ Proof.
         assert (Hrt : r <> t) by (intros ->; rewrite Hpc in Hrp; discriminate).
         apply (OLive_assemble g _ ls t _ L I'); cbn [oev].
         -- apply OWf_upd; [exact W|reflexivity].
-        -- apply (EL_enter (oev g) ls t EWait _ W EV); [rewrite Hpc; reflexivity|reflexivity].
+        -- apply (EL_enter (oev g) ls t EWait _ W EV); [rewrite Hpc; reflexivity|discriminate|reflexivity].
         -- intros Hf. left. exists r. rewrite upd_other by exact Hrt.
            destruct (post_set (opc (ls r))) eqn:Hpo; [rewrite (ol_ft _ _ L r Hpo) in Hf; discriminate|].
            destruct (opc (ls r)) as [[| | | |[|]|[|] []|]|]; cbn in *; congruence.
@@ -265,7 +265,7 @@ Proof.
     apply (OLive_assemble g _ ls t _ L I'); cbn [oev].
     + apply OWf_upd; [exact W|destruct throws; reflexivity].
     + destruct throws.
-      * apply (EL_enter (oev g) ls t ESet _ W EV); [rewrite Hpc; reflexivity|reflexivity].
+      * apply (EL_enter (oev g) ls t ESet _ W EV); [rewrite Hpc; reflexivity|discriminate|reflexivity].
       * apply EL_keep; [exact EV|rewrite Hpc; reflexivity|reflexivity].
     + apply (FLFT_keep g (oev g) ls t _ L); auto; cbn; rewrite ?Hpc; destruct throws; cbn; try discriminate; auto; intros; discriminate.
     + apply (FLFT_keep g (oev g) ls t _ L); auto; cbn; rewrite ?Hpc; destruct throws; cbn; try discriminate; auto; intros; discriminate.
@@ -273,7 +273,7 @@ Proof.
     destruct ok; cbn [fst snd] in *.
     + apply (OLive_assemble g _ ls t _ L I'); cbn [oev].
       * apply OWf_upd; [exact W|reflexivity].
-      * apply (EL_enter (oev g) ls t ESet _ W EV); [rewrite Hpc; reflexivity|reflexivity].
+      * apply (EL_enter (oev g) ls t ESet _ W EV); [rewrite Hpc; reflexivity|discriminate|reflexivity].
       * apply (FLFT_keep g (oev g) ls t _ L); auto; cbn; rewrite ?Hpc; cbn; try discriminate; auto; intros; discriminate.
       * apply (FLFT_keep g (oev g) ls t _ L); auto; cbn; rewrite ?Hpc; cbn; try discriminate; auto; intros; discriminate.
     + assert (Hft : flag (oev g) = true) by (apply (ol_ft _ _ L t); rewrite Hpc; reflexivity).
